@@ -1,9 +1,18 @@
 import Proofs.ConfModel
+import Proofs.Classify
+import Proofs.Fund
 
-/-! # C15 — classify() and Blade.mv: the translation versor used by `_translate` (algebraic core)
+/-! # C15 — classify() and Blade.mv
 
-PARTIAL: the decision table of `classify`, the four `mv` properties and the recovered direction/location/radius are
-decided by evaluation on the implementation (integer directions, dyadic locations and radii, base dimension 2..4). -/
+The formulas of `classify` (GA4CS table 14.1) and of `Direction.mv`, `Flat.mv`, `Round.mv`, from the defining relations: a
+direction blade `E` of grade `k` in base space (anti)commutes with the added basis vectors (`ε = (−1)^k`) and squares to a
+scalar.  Products of a vector with a homogeneous element are written by the half-sum formulas, which are theorems about the
+coded tables (`coded_*` below).  At the origin the tests and the recovered direction / location / radius are identities; a
+translation is a unit versor that fixes `einf`, hence commutes with every test, leaves the direction element `E einf`
+invariant, and carries the location `eo + ρ einf` to `up(p) + ρ einf`, whose `down` is `p`.
+
+PARTIAL: `DualFlat` (duality with the pseudoscalar), the `== 0` tests in floating point, the grade bookkeeping / class
+aliases and the error branches are decided by evaluation on the implementation. -/
 
 namespace C15
 open Conf
@@ -18,5 +27,69 @@ theorem translate_fixes_einf (r : Rel2 x a ep en qx qa b) :
     transl a ep en * einf ep en * translRev a ep en = einf ep en := transl_fixes_einf r
 /-- `T_p ~T_p = 1` -/
 theorem translate_unit (r : Rel2 x a ep en qx qa b) : transl a ep en * translRev a ep en = 1 := transl_unit r
+
+/-! ## the classification formulas -/
+open Classify
+
+variable {E : A} {ε e2 : ℚ}
+
+/-- `Direction(E).mv = E ∧ einf = E einf` -/
+theorem direction_mv (r : BRel E ep en ε e2) (hε : ε * ε = 1) : wedgev E (einf ep en) ε = E * einf ep en := Classify.direction_mv r hε
+/-- a direction passes both tests of the table (`−einf|X = 0`, `einf∧X = 0`) … -/
+theorem direction_is_classified (r : BRel E ep en ε e2) (hε : ε * ε = 1) :
+    vdot (-(einf ep en)) (E * einf ep en) (-ε) = 0 ∧ vwedge (einf ep en) (E * einf ep en) (-ε) = 0 := direction_tests r hε
+/-- … and its direction `X | −eo` is `E` -/
+theorem direction_is_recovered (r : BRel E ep en ε e2) (hε : ε * ε = 1) :
+    dotv (E * einf ep en) (-(eo ep en)) (-ε) = E := direction_recovered r hε
+/-- `Flat(E, 0).mv = eo ∧ E ∧ einf`: `y = −einf|X = E einf` (non-zero, so not a direction), `einf∧X = 0` (so a flat),
+    `eo∧X = 0` (the location `(eo|X) X⁻¹` is the origin); its direction `y | −eo = E` by `direction_is_recovered` -/
+theorem flat_is_classified (r : BRel E ep en ε e2) (hε : ε * ε = 1) :
+    vdot (-(einf ep en)) (flat0 E ep en ε) ε = E * einf ep en
+    ∧ vwedge (einf ep en) (flat0 E ep en ε) ε = 0
+    ∧ vwedge (eo ep en) (flat0 E ep en ε) ε = 0 := flat_tests r hε
+/-- `Round(E, 0, r).mv = (eo + ρ einf) ∧ E = (eo + ρ einf) E`, `ρ = r²/2` -/
+theorem round_mv (r : BRel E ep en ε e2) (hε : ε * ε = 1) (ρ : ℚ) : round0 E ep en ε ρ = (eo ep en + ρ • einf ep en) * E :=
+  Classify.round_mv r hε ρ
+/-- `y = −einf|X = E` (direction `(y∧einf)|−eo = E`; location `X y⁻¹ = eo + ρ einf`) and `X·X̂ = 2ρ E²` with `y² = E²`:
+    `radius² = 2ρ = r²` — real, imaginary (`ρ < 0`) or a tangent (`ρ = 0`) -/
+theorem round_is_classified (r : BRel E ep en ε e2) (hε : ε * ε = 1) (ρ : ℚ) :
+    vdot (-(einf ep en)) (round0 E ep en ε ρ) (-ε) = E
+    ∧ round0 E ep en ε ρ * ((-ε) • round0 E ep en ε ρ) = (2 * ρ * e2) • (1 : A) := round_tests r hε ρ
+
+/-- non-vacuity: every base vector of the model of a conformalised layout is a grade-1 direction (`ε = −1`) -/
+theorem vectors_are_directions {x : A} {qx' : ℚ} (r : Rel x ep en qx') : BRel x ep en (-1) qx' := BRel.of_vector r
+
+/-! ## translation covariance -/
+
+theorem translation_commutes_with_inner (T Tr v X : A) (σ : ℚ) (h : Tr * T = 1) :
+    vdot (T * v * Tr) (T * X * Tr) σ = T * vdot v X σ * Tr := sandwich_vdot T Tr v X σ h
+theorem translation_commutes_with_outer (T Tr v X : A) (σ : ℚ) (h : Tr * T = 1) :
+    vwedge (T * v * Tr) (T * X * Tr) σ = T * vwedge v X σ * Tr := sandwich_vwedge T Tr v X σ h
+theorem translation_fixes_scalars (T Tr : A) (c : ℚ) (h : T * Tr = 1) : T * (c • (1 : A)) * Tr = c • (1 : A) := sandwich_scalar T Tr c h
+/-- the direction element is the same at every location -/
+theorem direction_element_invariant (E a e : A) (ε : ℚ) (hee : e * e = 0) (hea : e * a = -(a * e)) (heE : e * E = ε • (E * e)) :
+    (1 + (1/2 : ℚ) • (e * a)) * (E * e) * (1 + (1/2 : ℚ) • (a * e)) = E * e := direction_translation_invariant E a e ε hee hea heE
+/-- the location of a translated round is the translation vector -/
+theorem round_location_recovered {p : A} {qp : ℚ} (r : Rel p ep en qp) (ρ : ℚ) :
+    transl p ep en * (eo ep en + ρ • einf ep en) * translRev p ep en = up p ep en qp + ρ • einf ep en
+    ∧ (1/2 : ℚ) • ((up p ep en qp + ρ • einf ep en) * einf ep en + einf ep en * (up p ep en qp + ρ • einf ep en)) = -1
+    ∧ ((1/2 : ℚ) • ((up p ep en qp + ρ • einf ep en) * E0 ep en + E0 ep en * (up p ep en qp + ρ • einf ep en))) * E0 ep en = p :=
+  round_location r ρ
+
+end C15
+
+/-! ## the half-sum formulas are the coded tables (canonical model, any commutative ring, any dimension and signature) -/
+namespace C15
+variable {R : Type} [CommRing R] (n : Nat) (sig : Nat → R)
+
+theorem coded_vector_inner_blade (g : Nat) (hg : 1 ≤ g) (x B : CMV n R) (hx : IsHom n 1 x) (hB : IsHom n g B) :
+    mmul n sig Model.imtCheck x B + mmul n sig Model.imtCheck x B = gmul n sig x B - (sgn g : R) • gmul n sig B x :=
+  two_inner_vector_hom n sig g hg x B hx hB
+theorem coded_blade_inner_vector (g : Nat) (hg : 1 ≤ g) (x B : CMV n R) (hx : IsHom n 1 x) (hB : IsHom n g B) :
+    mmul n sig Model.imtCheck B x = (-(sgn g : R)) • mmul n sig Model.lcmtCheck x B := blade_inner_vector n sig g hg x B hx hB
+theorem coded_vector_wedge_blade (g : Nat) (x B : CMV n R) (hx : IsHom n 1 x) (hB : IsHom n g B) :
+    wedge n x B + wedge n x B = gmul n sig x B + (sgn g : R) • gmul n sig B x := two_wedge_vector_hom n sig g x B hx hB
+theorem coded_blade_wedge_vector (g : Nat) (x B : CMV n R) (hx : IsHom n 1 x) (hB : IsHom n g B) :
+    wedge n B x = (sgn g : R) • wedge n x B := wedge_blade_vector n g x B hx hB
 
 end C15
